@@ -26,6 +26,7 @@ func panics(en *tl.Engine) {
 		for _, c := range tl.Configs() {
 			n, q := c[0], c[1]
 			en.PanicSequence(n, q)
+			en.TaskKinds(n, q, 2)
 			en.PanicStorm(n, q, true, 2)
 			en.PanicStorm(n, q, false, 6)
 			en.BoundAfterPanics(n, q, 1)
@@ -53,10 +54,10 @@ func stress(en *tl.Engine) {
 	small, big := reps(en, 300, 3000), reps(en, 50, 600)
 	for i := 0; i < small; i++ {
 		n, q := 1+en.Rng.Intn(3), en.Rng.Intn(3)
-		en.Stress(n, q, tl.StressOpt{PanicPct: 40, Observers: 1, CancelMode: 0}, i)
+		en.Stress(n, q, tl.StressOpt{PanicPct: 40, Observers: 1, CancelMode: 0, Kinds: true}, i)
 	}
 	for i := 0; i < big; i++ {
 		n, q := 1+en.Rng.Intn(4), en.Rng.Intn(4)
-		en.Stress(n, q, tl.StressOpt{Big: true, PanicPct: 30, Observers: 3, CancelMode: 0}, i)
+		en.Stress(n, q, tl.StressOpt{Big: true, PanicPct: 30, Observers: 3, CancelMode: 0, Kinds: true}, i)
 	}
 }
